@@ -240,8 +240,32 @@ func c17Gen(r *vRand) *c17Case {
 			if r.Bool() {
 				d.add("junk", &c17Node{Kind: "file", Data: "hidden by the mount"})
 			}
-			c.Root.add(name, d)
-			tag("collection-below-output")
+			if r.Bool() {
+				c.Root.add(name, d)
+				tag("collection-below-output")
+			} else {
+				// mounted one level down (/ctr/outdir/runK/ref) with symlinks to the ancestor directory of the mount
+				// point: "latestK -> runK" at the top and one nested in another directory, so that the links are met
+				// by a directory listing and the mount must show up under their names too
+				run := fmt.Sprintf("run%d", k+1)
+				rd := c17Dir()
+				rd.add("log", &c17Node{Kind: "file", Data: "log of " + run})
+				rd.add("ref", d)
+				if c.Root.add(run, rd) {
+					mp = c17Ctr + "/" + run + "/ref"
+					c.Root.add(fmt.Sprintf("latest%d", k+1), &c17Node{Kind: "link", Target: []string{run, c17Ctr + "/" + run}[r.Intn(2)]})
+					nd := c17Dir()
+					nd.add("cur", &c17Node{Kind: "link", Target: "../" + run})
+					if r.Bool() {
+						nd.add("curref", &c17Node{Kind: "link", Target: "../" + run + "/ref"})
+					}
+					c.Root.add(fmt.Sprintf("nest%d", k+1), nd)
+					tag("collection-one-level-below-output+links-to-ancestor")
+				} else {
+					c.Root.add(name, d)
+					tag("collection-below-output")
+				}
+			}
 		}
 		sub := ""
 		if len(m.Dirs) > 1 && r.Chance(1, 4) {
@@ -319,7 +343,7 @@ func c17Gen(r *vRand) *c17Case {
 			}
 			return all[r.Intn(len(all))]
 		}
-		switch x := r.Intn(20); {
+		switch x := r.Intn(23); {
 		case x < 6: // relative, inside
 			target, what = c17Rel(parent, pickInside()), "rel"
 		case x < 9: // absolute, inside
@@ -343,6 +367,25 @@ func c17Gen(r *vRand) *c17Case {
 			} else {
 				target, what = c17Rel(parent, pickInside()), "rel"
 			}
+		case x >= 20: // a path OUTSIDE every mount whose name merely extends a mount point's name (no slash)
+			var bases []string
+			for _, m := range c.Mounts {
+				bases = append(bases, m.Path)
+			}
+			bases = append(bases, c.Secrets...)
+			b := bases[r.Intn(len(bases))]
+			abs := b + []string{"-old/x", "2", ".bak/y", "-old", "x/" + c17Names[r.Intn(len(c17Names))]}[r.Intn(5)]
+			if r.Bool() {
+				target = abs
+			} else {
+				// the same place, written relative to the link's directory
+				ups := 2 + strings.Count(parent, "/")
+				if parent != "" {
+					ups++
+				}
+				target = strings.Repeat("../", ups) + strings.TrimPrefix(abs, "/")
+			}
+			what = "mount-name-sibling"
 		case x < 19: // ".." after a component (lexical vs physical)
 			target, what = c17Rel(parent, pickInside())+"/../"+c17Names[r.Intn(len(c17Names))], "dotdot"
 		default:
